@@ -668,7 +668,7 @@ rem_ext(To& to, const From1& x, const From2& y, Rounding_Dir dir) {
     return assign_nan<To_Policy>(to, V_INF_MOD);
   }
   else {
-    if (is_minf<From1_Policy>(y) || is_pinf<From2_Policy>(y)) {
+    if (is_minf<From2_Policy>(y) || is_pinf<From2_Policy>(y)) {
       to = x;
       return V_EQ;
     }
